@@ -157,7 +157,7 @@ impl<const N: u32> PxE2<{ N }> {
                 let mut bits_more = false;
                 let mut bit_n_plus_one = false;
                 if reg_a < N {
-                    if reg_a <= (N - 4) {
+                    if reg_a + 4 <= N {
                         bit_n_plus_one = (((0x_8000_0000_u64) << (32 - N)) & frac64_a) != 0;
                     //exp_a <<= (28-reg_a);
                     } else {
@@ -288,7 +288,7 @@ impl<const N: u32> PxE2<{ N }> {
                 let mut bits_more = false;
                 let mut bit_n_plus_one = false;
                 if reg_a < N {
-                    if reg_a <= (N - 4) {
+                    if reg_a + 4 <= N {
                         bit_n_plus_one = (((0x_8000_0000_u64) << (32 - N)) & frac64_a) != 0;
                     //exp_a <<= (28-reg_a);
                     } else {
@@ -412,7 +412,7 @@ impl<const N: u32> ops::Mul for PxE2<{ N }> {
                 let mut bit_n_plus_one = false;
                 let mut bits_more = false;
                 if reg_a < N {
-                    if reg_a <= (N - 4) {
+                    if reg_a + 4 <= N {
                         bit_n_plus_one = ((0x_8000_0000_0000_0000_u64 >> N) & frac64_z) != 0;
                         bits_more = ((0x_7FFF_FFFF_FFFF_FFFF >> N) & frac64_z) != 0;
                         frac_a &= Self::mask();
@@ -534,7 +534,7 @@ impl<const N: u32> ops::Div for PxE2<{ N }> {
                 let mut bit_n_plus_one = false;
                 let mut bits_more = false;
                 if reg_a < N {
-                    if reg_a <= (N - 4) {
+                    if reg_a + 4 <= N {
                         bit_n_plus_one = ((0x_8000_0000_u32 >> (N - reg_a - 2)) & frac64_z) != 0;
                         bits_more = ((0x_7FFF_FFFF >> (N - reg_a - 2)) & frac64_z) != 0;
                         frac_a &= Self::mask();
